@@ -13,6 +13,9 @@ import (
 func MonC08() *Mon {
 	first := map[uint32]vt.H{}
 	return &Mon{Name: "C08",
+		Panic: func(n *Node, c *Call, msg string) {
+			n.W.Fail("C08", fmt.Sprintf("node %d: the library panicked in %s in a fault-free synchronous run (%s): it decides nothing any more", n.ID, c.Kind, msg), "panic-in-fault-free-run")
+		},
 		Broadcast: func(n *Node, p Payload) {
 			switch p.T {
 			case dbft.ChangeViewType, dbft.RecoveryRequestType, dbft.RecoveryMessageType:
@@ -84,6 +87,11 @@ func MonProgress(prop string, maxView int) *Mon {
 	askedCV := map[int]map[hv]bool{}
 	commitAfterCV := map[uint32]bool{}
 	return &Mon{Name: prop + "-progress",
+		Panic: func(n *Node, c *Call, msg string) {
+			if !n.Faulty {
+				n.W.Fail(prop, fmt.Sprintf("node %d: the library panicked in %s (%s): a correct validator is lost for good", n.ID, c.Kind, msg), "panic-of-correct-node")
+			}
+		},
 		AfterCall: func(n *Node, c *Call) {
 			if c.Kind == CReceive && c.P.T == dbft.RecoveryMessageType && n.D.BlockIndex == c.PreHeight && n.D.ViewNumber > c.PreView && n.D.IsPrimary() && !n.D.RequestSentOrReceived() {
 				recoveringPrimary[n.D.BlockIndex] = true
@@ -207,6 +215,9 @@ func MonC16() *Mon {
 	var lastProp time.Time
 	haveLast := false
 	return &Mon{Name: "C16",
+		Panic: func(n *Node, c *Call, msg string) {
+			n.W.Fail("C16", fmt.Sprintf("node %d: the library panicked in %s on a fault-free chain (%s)", n.ID, c.Kind, msg), "panic-in-fault-free-run")
+		},
 		Subscribe: func(n *Node) {
 			if n.W.Cfg.MaxTimePerBlock == 0 {
 				n.W.Fail("C16", fmt.Sprintf("node %d: SubscribeForTxs called although the extension is not configured", n.ID), "subscribe-when-off")
